@@ -96,6 +96,9 @@ def all_outcomes(state, uid_n, conc):
         yield tuple(taken), st, n2
 
 
+C09_ON_CUT_STATES = False
+
+
 class Mismatch(Exception):
     def __init__(self, sig, what, trail):
         self.sig, self.what, self.trail = sig, what, trail
@@ -138,6 +141,13 @@ def lockstep(live, cut, uid_n, depth, trail, kind, stats, base_t):
                                f"{_short(o_l)}, cut state emits {[e['type'] for e in o_c]} {_short(o_c)}", trail + [aev])
             if o_l:
                 stats["lockstep_steps_with_output"] += 1
+            if C09_ON_CUT_STATES:
+                # C09 piggybacks: its invariant is evaluated on every state reached after a cut
+                from vf.props import c09 as _c09
+                probs, _ = _c09.problems(st_c, allow_missing_parent=(kind == "AGE"))
+                stats["c09_states_checked"] = stats.get("c09_states_checked", 0) + 1
+                if probs and len(stats.setdefault("_c09_viol", [])) < 3:
+                    stats["_c09_viol"].append((probs[0][0] + ":after-" + kind, probs[0][1], trail + [aev]))
             if kind == "SAVE_RESTORE":
                 a, b = repr(v2x.dump_state(st_l)), repr(v2x.dump_state(st_c))
                 if a != b:
@@ -224,7 +234,8 @@ def explore(task):
                 seen.add(key)
                 stats["states"] += 1
                 frontier.append((st2, n2, hist + ((aev, vec),), d + 1))
-    return {"stats": stats, "viol": viol, "sample": {"program": name, "states": stats["states"], "lockstep_steps": stats["lockstep_steps"]}}
+    c09v = [(sig, what, dict(info0, cut=sig.rsplit("after-", 1)[-1], trail=[_j(h) for h in tr])) for sig, what, tr in stats.pop("_c09_viol", [])]
+    return {"stats": stats, "viol": viol, "c09": c09v, "sample": {"program": name, "states": stats["states"], "lockstep_steps": stats["lockstep_steps"]}}
 
 
 def _cls(e):
